@@ -208,7 +208,8 @@ def m_c_size(eng):
             pos = [a for s, a in p.lits if s]
             neg = [a for s, a in p.lits if not s]
             if gt in pos:
-                extra = [a for a in pos if a != gt and a != ("eq", "NODE.protocol", "'can'")] + [a for a in neg if a[0] not in ("nothing",) and a != ("eq", "NODE.protocol", "'can'")]
+                allowed_neg = [("nothing", "FCP.get_struct(NODE.type)"), ("eq", "NODE.protocol", "'can'")]
+                extra = [a for a in pos if a != gt and a != ("eq", "NODE.protocol", "'can'")] + [("not",) + a for a in neg if a not in allowed_neg and a[0] != "raises"]
                 bad = [a for a in extra if not (a[0] == "eq" and a[1] == "NODE.protocol")]
                 if bad:
                     return False, "size check is weakened by extra condition(s): %s" % "; ".join(fmt_atom(x) for x in bad)
